@@ -41,3 +41,149 @@ Example C04_example :
   Some [72; 84; 84; 80; 13; 10; 65; 58; 32; 195; 169; 9; 66; 13; 10; 66; 58; 32; 13; 10; 13; 10].
 Proof. vm_compute. reflexivity. Qed.
 Print Assumptions C04_example.
+
+(* ====================================================================================
+   Body framing of StreamWriter (Model/Writer.v wstep/wrun), tied to the request parser's
+   chunked decoder (Model/Http.v feed_payload).  Lemmas: Proofs/WriterBody.v. *)
+From AV Require Import Lib.BytesX Generated.HttpGen Model.Http Proofs.WriterBody.
+
+(* Chunk-size numerals: f"{n:x}" is read back by the parser as n; it is a non-empty string of
+   HEXDIGITS and contains no CR, LF or ';' (so it cannot end the size line early nor start a
+   chunk extension). *)
+Theorem C04_hex_numerals : forall n,
+  parse_hex (to_hex n) = n /\ forallb hex_digit (to_hex n) = true /\ to_hex n <> [] /\
+  (forall c, In c (to_hex n) -> c <> 13 /\ c <> 10 /\ c <> 59).
+Proof. exact hex_numerals. Qed.
+Print Assumptions C04_hex_numerals.
+
+Example C04_hex_numerals_example :
+  to_hex 0 = [48] /\ to_hex 255 = [102; 102] /\ to_hex 65537 = [49; 48; 48; 48; 49] /\
+  parse_hex (to_hex 4096) = 4096.
+Proof. vm_compute. repeat split; reflexivity. Qed.
+Print Assumptions C04_hex_numerals_example.
+
+(* Chunked framing is truthful.  A writer put in chunked mode with a (non-empty) buffered head H and no
+   declared length, then given ANY sequence of write(d) / send_headers() calls and one terminator
+   (write_eof(d) or set_eof()), emits H followed by a body which
+     - is exactly one "size CRLF data CRLF" group per NON-EMPTY write, then "0 CRLF CRLF"
+       (an empty write emits nothing, in particular no premature last-chunk), and
+     - the request parser's chunked decoder, started in its initial state, accepts completely
+       (PRDone, nothing left over), delivering exactly the concatenation of the written data, with one
+       chunk end at the cumulative offset of every non-empty write, and end of stream,
+   provided the parser's line limit admits each size line and at least one trailer line is allowed. *)
+Theorem C04_chunked_decodes : forall H ops t lim mt a,
+  H <> [] -> forallb body_op ops = true -> term_op t = true ->
+  let ds := map op_data (ops ++ [t]) in
+  (forall d, In d ds -> lenN (to_hex (lenN d)) <= max_line lim) -> 1 <= max_line lim -> 1 <= mt ->
+  exists sf body,
+    wrun winit (WEnableChunking :: WHeaders H :: ops ++ [t]) = (sf, H ++ body) /\
+    w_eof sf = true /\
+    body = concat (map enc1 ds) ++ last_chunk /\
+    feed_payload lim (mkP (PChunked CSize) [] [] mt) body a =
+      PRDone [] (upd_cur (fun m => mkR (r_msg m) (r_body m) (r_data m ++ concat ds)
+                                       (r_splits m ++ offsets (lenN (r_data m)) ds) true (r_exc m)) a).
+Proof. exact chunked_decodes. Qed.
+Print Assumptions C04_chunked_decodes.
+
+(* hypotheses satisfiable; empty write in the middle, send_headers between writes, a two-digit size *)
+Example C04_chunked_decodes_example :
+  let H := [72; 13; 10; 13; 10] in
+  let ops := [WWrite [1; 2; 3]; WSendHeaders; WWrite []; WWrite (repeat 7 17)] in
+  let t := WEof [9] in
+  let lim := mkLimits 8190 8190 128 0 in
+  let m0 := mkR (mkMsg [80; 79; 83; 84] [47] 1 1 [] false None false true) true [] [] false None in
+  let body := [51; 13; 10; 1; 2; 3; 13; 10; 49; 49; 13; 10] ++ repeat 7 17 ++
+              [13; 10; 49; 13; 10; 9; 13; 10; 48; 13; 10; 13; 10] in
+  forallb body_op ops = true /\ term_op t = true /\
+  forallb (fun d => lenN (to_hex (lenN d)) <=? max_line lim) (map op_data (ops ++ [t])) = true /\
+  snd (wrun winit (WEnableChunking :: WHeaders H :: ops ++ [t])) = H ++ body /\
+  feed_payload lim (mkP (PChunked CSize) [] [] 1) body [m0] =
+    PRDone [] [mkR (r_msg m0) true ([1; 2; 3] ++ repeat 7 17 ++ [9]) [3; 20; 21] true None].
+Proof. vm_compute. repeat split; reflexivity. Qed.
+Print Assumptions C04_chunked_decodes_example.
+
+(* Declared length is truthful for write(): with `length = n` set before the head (not chunked), after any
+   sequence of write(d) / send_headers() calls and a terminator, the output is the head, then the first n
+   bytes of what was handed to write() (never more), then the terminator's own chunk.  write_eof(chunk)
+   is NOT truncated by the code (quirk, modelled as it is): the terminator's data is appended whole.  If
+   exactly n bytes were written and the terminator carries no data, exactly those n bytes follow the head. *)
+Theorem C04_length_truthful : forall H n ops t,
+  H <> [] -> forallb body_op ops = true -> term_op t = true ->
+  let written := concat (map op_data ops) in
+  exists sf,
+    wrun winit (WSetLength (Some n) :: WHeaders H :: ops ++ [t]) =
+      (sf, H ++ firstn (N.to_nat n) written ++ op_data t) /\
+    w_eof sf = true /\ w_length sf = Some (n - lenN written) /\
+    (lenN written = n -> op_data t = [] ->
+     wrun winit (WSetLength (Some n) :: WHeaders H :: ops ++ [t]) = (sf, H ++ written) /\
+     w_length sf = Some 0).
+Proof. exact length_truthful. Qed.
+Print Assumptions C04_length_truthful.
+
+(* and before any terminator: either the head is still buffered and nothing was emitted, or the head is
+   followed by at most n bytes, the first n handed to write() *)
+Theorem C04_length_never_exceeded : forall H n ops,
+  H <> [] -> forallb body_op ops = true ->
+  let written := concat (map op_data ops) in
+  exists sf,
+    wrun winit (WSetLength (Some n) :: WHeaders H :: ops) =
+      (sf, (if w_hwritten sf then H else []) ++ firstn (N.to_nat n) written) /\
+    lenN (firstn (N.to_nat n) written) <= n.
+Proof. exact length_never_exceeded. Qed.
+Print Assumptions C04_length_never_exceeded.
+
+Example C04_length_truthful_example :
+  let H := [72; 13; 10; 13; 10] in
+  let ops := [WWrite [1; 2]; WSendHeaders; WWrite []; WWrite [3; 4; 5; 6]; WWrite [7]] in
+  forallb body_op ops = true /\
+  (* over-long writes are cut at the declared 5 bytes *)
+  snd (wrun winit (WSetLength (Some 5) :: WHeaders H :: ops ++ [WSetEof])) = H ++ [1; 2; 3; 4; 5] /\
+  (* exactly the declared 7 bytes *)
+  wrun winit (WSetLength (Some 7) :: WHeaders H :: ops ++ [WEof []]) =
+    (mkW (Some 0) false None true true, H ++ [1; 2; 3; 4; 5; 6; 7]) /\
+  (* quirk: the chunk given to write_eof is not cut *)
+  snd (wrun winit (WSetLength (Some 5) :: WHeaders H :: ops ++ [WEof [8; 9]])) = H ++ [1; 2; 3; 4; 5; 8; 9].
+Proof. vm_compute. repeat split; reflexivity. Qed.
+Print Assumptions C04_length_truthful_example.
+
+(* Nothing before the head, head exactly once, in EVERY mode (any declared length l, chunked or not):
+   the output of a writer whose (non-empty) head H is buffered equals H followed by what a writer
+   whose head is already out emits for the same calls; that remainder does not mention H.  Before a
+   terminator the head may still be buffered (nothing emitted at all) - then the remainder is empty too:
+   no body byte ever precedes the head. *)
+Theorem C04_head_first_once : forall l c H ops, H <> [] -> forallb body_op ops = true ->
+  (forall t, term_op t = true ->
+     wrun (mkW l c (Some H) false false) (ops ++ [t]) =
+     (fst (wrun (mkW l c None true false) (ops ++ [t])),
+      H ++ snd (wrun (mkW l c None true false) (ops ++ [t])))) /\
+  (exists sf, wrun (mkW l c (Some H) false false) ops =
+              (sf, (if w_hwritten sf then H else []) ++ snd (wrun (mkW l c None true false) ops)) /\
+              (w_hwritten sf = false -> snd (wrun (mkW l c None true false) ops) = [])).
+Proof. exact head_first_once. Qed.
+Print Assumptions C04_head_first_once.
+
+(* the state quantified over above is the one reached by configuring a fresh writer *)
+Theorem C04_setup_state : forall (l : option N) (c : bool) (H : bytes),
+  wrun winit (WSetLength l :: (if c then [WEnableChunking] else []) ++ [WHeaders H]) =
+  (mkW l c (Some H) false false, []).
+Proof. exact setup_state. Qed.
+Print Assumptions C04_setup_state.
+
+Example C04_head_first_once_example :
+  let H := [72; 13; 10; 13; 10] in
+  (* chunked, declared length 4: the head once, in front *)
+  snd (wrun (mkW (Some 4) true (Some H) false false) [WWrite []; WWrite [1; 2; 3]; WSendHeaders; WWrite [4; 5]; WSetEof])
+    = H ++ [51; 13; 10; 1; 2; 3; 13; 10; 49; 13; 10; 4; 13; 10; 48; 13; 10; 13; 10] /\
+  (* declared length 0 and a non-empty write: nothing is emitted and the head stays buffered ... *)
+  wrun (mkW (Some 0) false (Some H) false false) [WWrite [1]] = (mkW (Some 0) false (Some H) false false, []) /\
+  (* ... until the terminator *)
+  snd (wrun (mkW (Some 0) false (Some H) false false) [WWrite [1]; WSetEof]) = H.
+Proof. vm_compute. repeat split; reflexivity. Qed.
+Print Assumptions C04_head_first_once_example.
+
+(* Quirk, stated as it is: set_eof() on a chunked writer whose head was never buffered nor written emits
+   nothing at all (no last-chunk), yet marks the writer finished. *)
+Theorem C04_set_eof_without_head_quirk : forall l,
+  wstep (mkW l true None false false) WSetEof = (mkW l true None false true, []).
+Proof. exact set_eof_without_head_quirk. Qed.
+Print Assumptions C04_set_eof_without_head_quirk.
